@@ -249,6 +249,32 @@ func TestVerifC32(t *testing.T) {
 					w.free(func() { _ = w.cmdUnlock(w.newProcOn("unlock-dst", "dst")) })
 				}
 				judgeDst(where, completed)
+				if !completed && pr.cl.Dead && !r.Failed() && tp.Choose(2) == 0 {
+					// what a user does after an interrupted copy: (optionally) repair index, then copy again
+					where2 := where + ", then"
+					if tp.Choose(2) == 0 {
+						var rerr error
+						w.free(func() {
+							rp := w.newProcOn("repair-index-dst", "dst")
+							rerr = rp.run(func(ctx context.Context, g global.Options, term ui.Terminal) error {
+								return runRebuildIndex(ctx, RepairIndexOptions{}, g, term)
+							})
+						})
+						if rerr != nil {
+							r.Fail("recovery", "repair-index-failed", "%s: repair index on the destination failed: %v", where, rerr)
+						}
+						where2 += " repair index and"
+					}
+					var cerr error
+					w.free(func() { cerr = w.cmdCopy(w.newProcOn("copy-retry", "dst"), nil) })
+					if cerr != nil {
+						r.Fail("recovery", "copy-retry-failed", "%s a fault-free copy failed: %v", where2, cerr)
+					}
+					judgeDst(where2+" a second copy", true)
+					w.free(func() { _ = w.cmdUnlock(w.newProcOn("unlock-dst", "dst")) })
+					w.checkCleanOn("dst", "dst-check", where2+" a second copy")
+					r.Count("copy_retried_after_crash", 1)
+				}
 				if completed && !r.Failed() {
 					// idempotence: a second copy writes no pack and no snapshot
 					extra := 0
@@ -266,6 +292,9 @@ func TestVerifC32(t *testing.T) {
 					if extra > 0 {
 						r.Fail("idempotent", "second-copy-wrote", "%s: a second copy saved %d pack/snapshot files", where, extra)
 					}
+					// a stalled unlock (> 1 min) gives up and leaves the lock file behind by design: clean up like a user would
+					w.free(func() { _ = w.cmdUnlock(w.newProcOn("unlock-dst", "dst")) })
+					w.checkCleanOn("dst", "dst-check", where)
 				}
 				if !sweep || !pr.cl.Dead {
 					break
